@@ -383,9 +383,10 @@ pub fn all() -> Vec<CheckDef> {
                 Family { enumerate: Some(queuelist::lmicro_enumerate), variant: "", name: "list-micro-two-preemption-points-enumerated", strategy: |_| queuelist::list_strategy(), cases: queuelist::lmicro_total },
                 Family { enumerate: None, variant: "", name: "list-histories", strategy: |_| queuelist::list_strategy(), cases: |t| t.pick(60_000, 600_000) },
                 Family { enumerate: None, variant: "", name: "registry-churn", strategy: |t| ebrworld::free(ebrworld::EW_CHURN, 4, t.pick(10, 15), t.pick(14, 23)), cases: |t| t.pick(60_000, 600_000) },
+                Family { enumerate: None, variant: "", name: "E3-scan-unlinks-exited-participants-in-stages", strategy: |_| ebrworld::e3(), cases: |t| t.pick(4_000, 40_000) },
             ],
             exec: queuelist::exec_c18,
-            rule: "2-4 scheduled threads, <=8 ops each (insert, logical delete once by the owner or of a prefilled element, full traversal) on the collector's internal intrusive list type, with preemption inside insert's CAS loop, the iterator's unlink CAS and the delete mark. Oracle: a traversal that completed without reporting a stall visited every element whose insert had returned before the traversal was invoked and whose delete was not invoked before it returned; no element is visited before its insert was invoked; after deleting everything and clean-up traversals every element was finalized exactly once and the list is empty. Second family (registry-churn): 2-4 scheduled threads with short pin/round/defer programs on the default collector that exit (unregister) at generated points while others traverse the real participant registry inside try_advance; an epoch advancement that leaves a registered pinned participant more than one epoch behind has overlooked it. Non-trivial = a traversal overlapped both an insert and a delete (first family); a thread exited while a peer was pinned and the epoch advanced while some thread was pinned (second family); distinct = distinct hash of the case",
+            rule: "2-4 scheduled threads, <=8 ops each (insert, logical delete once by the owner or of a prefilled element, full traversal) on the collector's internal intrusive list type, with preemption inside insert's CAS loop, the iterator's unlink CAS and the delete mark. Oracle: a traversal that completed without reporting a stall visited every element whose insert had returned before the traversal was invoked and whose delete was not invoked before it returned; no element is visited before its insert was invoked; after deleting everything and clean-up traversals every element was finalized exactly once and the list is empty. Second family (registry-churn): 2-4 scheduled threads with short pin/round/defer programs on the default collector that exit (unregister) at generated points while others traverse the real participant registry inside try_advance; an epoch advancement that leaves a registered pinned participant more than one epoch behind has overlooked it. Third family (E3): one thread registers about 200-290 extra participants and retires them in stages of 64-73 while a second thread's collection scans the registry and is parked right after each bag it seals (or after a generated number of unlinks) and a third thread runs collection rounds in between; freed participant records and bags are poisoned and never reused within the case, so a traversal that touches a freed entry dies (crash = violation). Non-trivial = a traversal overlapped both an insert and a delete (first family); a thread exited while a peer was pinned and the epoch advanced while some thread was pinned (second family); one thread's scans unlinked at least 64 entries (third family); distinct = distinct hash of the case",
             timeout_s: t60,
             assumptions: vec![ASSUME_SC, ASSUME_HOOKS],
             shards: s16,
@@ -395,9 +396,10 @@ pub fn all() -> Vec<CheckDef> {
             families: vec![
                 Family { enumerate: None, variant: "", name: "thread-lifecycles", strategy: |_| tls::strategy(), cases: |t| t.pick(30_000, 300_000) },
                 Family { enumerate: None, variant: "da", name: "thread-lifecycles-debug-assertions", strategy: |_| tls::strategy(), cases: |t| t.pick(20_000, 200_000) },
+                Family { enumerate: None, variant: "", name: "large-collection-released-inside-destructor", strategy: tls::pile_up_strategy, cases: |t| t.pick(48, 320) },
             ],
             exec: tls::exec,
-            rule: "a short-lived thread with up to three thread-local objects initialised in a generated order relative to circ's participant handle (so that their destructors run before or after the handle's), each destructor performing a generated list of API actions (pin, nested pin, flush, drop Rc/Weak, new+drop, chains, upgrade, load/store/swap on a shared cell, collection rounds, reactivate), a generated body, 0..130 deferrals pending at exit, and threads that first use the library inside a destructor. Oracle: join() returns Ok, no crash, and the surviving thread's collection rounds destruct and free every object the thread created. Non-trivial = at least one API action ran in a destructor after the thread's participant handle had been destroyed; distinct = distinct hash of the case",
+            rule: "a short-lived thread with up to three thread-local objects initialised in a generated order relative to circ's participant handle (so that their destructors run before or after the handle's), each destructor performing a generated list of API actions (pin, nested pin, flush, drop Rc/Weak, new+drop, chains, upgrade, load/store/swap on a shared cell, collection rounds, reactivate), a generated body, 0..130 deferrals pending at exit, and threads that first use the library inside a destructor; a family in which a destructor releases 2^10..2^20 pointers after the handle is gone and an ordinary thread (256 KiB / 512 KiB / 2 MiB / main stack) collects afterwards. Oracle: join() returns Ok, no crash, and the surviving thread's collection rounds destruct and free every object the thread created. Non-trivial = at least one API action ran in a destructor after the thread's participant handle had been destroyed; distinct = distinct hash of the case",
             timeout_s: t60,
             assumptions: vec![ASSUME_HOOKS, "glibc runs thread-local destructors in reverse order of registration (the library's own pin_while_exiting test relies on the same)", "the family `...-debug-assertions` runs the same generator against a build of circ with debug assertions on, because `without panicking` includes the panics of the library's own assertions in debug builds", "a hang is reported as inconclusive (exit 2), never as a violation"],
             shards: s16,
